@@ -27,13 +27,10 @@ CORPUS = [
                     retries -= 1"""),
     M("handshake-default-type", L, "            self.write(token, packet_type=self.PacketType.HANDSHAKE_REQUEST)", "            self.write(token)"),
     M("protocol-error-swallowed", L, "        except ProtocolError as e:\n            # Promote any protocol error to auth error\n            raise AuthenticationError(e) from e", "        except ProtocolError as e:\n            response = bytes(64)"),
-    M("promotion-removed", L, """        try:
-            self.write(token, packet_type=self.PacketType.HANDSHAKE_REQUEST)
-            response = await self.read()
-        except ProtocolError as e:
+    M("promotion-removed", L, """        except ProtocolError as e:
             # Promote any protocol error to auth error
-            raise AuthenticationError(e) from e""", """        self.write(token, packet_type=self.PacketType.HANDSHAKE_REQUEST)
-        response = await self.read()"""),
+            raise AuthenticationError(e) from e
+        finally:""", """        finally:"""),
     M("device-maps-only-protocol", B, "        except (ProtocolError, TimeoutError) as e:\n            raise AuthenticationError(e) from e", "        except ProtocolError as e:\n            raise AuthenticationError(e) from e"),
     M("token-modified", L, "            self.write(token, packet_type=self.PacketType.HANDSHAKE_REQUEST)", "            self.write(token[::-1], packet_type=self.PacketType.HANDSHAKE_REQUEST)"),
     M("extra-write", L, "            self.write(token, packet_type=self.PacketType.HANDSHAKE_REQUEST)", "            self.write(token, packet_type=self.PacketType.HANDSHAKE_REQUEST)\n            self.write(key, packet_type=self.PacketType.HANDSHAKE_REQUEST)"),
@@ -42,7 +39,22 @@ CORPUS = [
       also=[(L, "self.peer, self._local_key_expiration.isoformat(timespec=\"seconds\"), self._local_key.hex())", "self.peer, expiration.isoformat(timespec=\"seconds\"), self._local_key.hex())")]),
     M("key-not-from-verification", L, "            self._local_key = self._get_local_key(key, response_mv)", "            self._get_local_key(key, response_mv)\n            self._local_key = strxor(response_mv[:32], key)"),
     M("wrong-key-used", L, "            self._local_key = self._get_local_key(key, response_mv)", "            self._local_key = self._get_local_key(token[:32], response_mv)"),
-    M("fresh-protocol-has-key", L, "        self._local_key = None\n        self._local_key_expiration = None\n\n    @property\n    def authenticated", "        self._local_key = bytes(32)\n        self._local_key_expiration = None\n\n    @property\n    def authenticated"),
+    M("fresh-protocol-has-key", L, "        self._local_key = None\n        self._local_key_expiration = None\n        self._handshake_pending", "        self._local_key = bytes(32)\n        self._local_key_expiration = None\n        self._handshake_pending"),
+    M("expiry-before-proof", L, """        # Generate local key from cloud key
+        with memoryview(response) as response_mv:
+            self._local_key = self._get_local_key(key, response_mv)
+
+        # Set expiration time
+        self._local_key_expiration = datetime.now(
+            timezone.utc) + self.AUTHENTICATION_EXPIRATION
+""", """        # Set expiration time
+        self._local_key_expiration = datetime.now(
+            timezone.utc) + self.AUTHENTICATION_EXPIRATION
+
+        # Generate local key from cloud key
+        with memoryview(response) as response_mv:
+            self._local_key = self._get_local_key(key, response_mv)
+"""),
     M("no-flush", L, "        # Flush any existing data from the queue\n        self._flush()\n", ""),
     M("halves-overlap", L, "        payload = data[:32]\n        rx_hash = data[32:]", "        payload = data[:32]\n        rx_hash = data[16:48]"),
     # neutral
